@@ -51,7 +51,7 @@ def showv(v):
     k = v['k']
     return {'int': lambda: repr(v['i']), 'str': lambda: repr(v['s']), 'none': lambda: 'None',
             'bool': lambda: repr(v['b']), 'ref': lambda: '<cell %d>' % v['a'],
-            'sent': lambda: v['s'], 'fn': lambda: v['s']}[k]()
+            'sent': lambda: v['s'], 'fn': lambda: v['s'], 'elist': lambda: '[]', 'edict': lambda: '{}'}[k]()
 
 
 def show(ast):
@@ -74,6 +74,8 @@ def show(ast):
         return '[%s]' % ', '.join(kids)
     if op == 'tuple':
         return '(%s%s)' % (', '.join(kids), ',' if len(kids) == 1 else '')
+    if op == 'ntuple':
+        return 'PAIR(%s)' % ', '.join(kids)
     if op in ('pipe', 'spec', 'fill', 'auto'):
         return '%s(%s)' % (op.capitalize(), ', '.join(kids))
     if op == 'inspect':
@@ -202,9 +204,12 @@ def rand_target(rng):
     """nested data (dict / OrderedDict / list / tuple / attribute objects, depth <= 4) with some
     sharing, no cycles; string values are restricted to the strings GlomData can index"""
     cells = []
+    gen_ok = [True]
 
     def scalar():
         r = rng.random()
+        if r < 0.12:
+            return rng.choice([VI(0), VS(''), {'k': 'bool', 'b': False}, NONE, VI(-1), VI(1), {'k': 'bool', 'b': True}])
         if r < 0.45:
             return VI(rng.randint(-2, 5))
         if r < 0.6:
@@ -223,12 +228,28 @@ def rand_target(rng):
         return container(d)
 
     def container(d):
-        cls = rng.choice(['dict', 'dict', 'dict', 'list', 'list', 'odict', 'tuple', 'obj'])
+        r = rng.random()
+        if r < 0.04:          # attribute objects with a hostile __eq__
+            cells.append({'cls': rng.choice(['eqall', 'eqraise']), 'items': []})
+            return {'k': 'ref', 'a': len(cells)}
+        if r < 0.08:          # empty containers (equal to each other, distinct objects)
+            cells.append({'cls': rng.choice(['list', 'dict', 'odict']), 'items': []})
+            return {'k': 'ref', 'a': len(cells)}
+        cls = rng.choice(['dict', 'dict', 'dict', 'list', 'list', 'odict', 'tuple', 'obj', 'gen'])
+        if cls == 'gen':      # a one-shot iterator (never inside a tuple: see make_heap)
+            if gen_ok[0]:
+                cells.append({'cls': 'gen', 'items': [scalar() for _ in range(rng.randint(0, 3))], 'pulled': 0})
+                return {'k': 'ref', 'a': len(cells)}
+            cls = 'list'
         if cls in ('dict', 'odict', 'obj'):
             keys = rng.sample(KEYS, rng.randint(1, 4))
             items = [[VS(k), value(d - 1)] for k in keys]
         elif cls == 'tuple':
+            gen_ok[0] = False
             items = [value(d - 1) for _ in range(rng.randint(1, 2))]
+            gen_ok[0] = True
+            if any(v['k'] == 'ref' and cells[v['a'] - 1]['cls'] == 'gen' for v in items):
+                items = [scalar()]
         else:
             n = rng.randint(0, 3)
             if rng.random() < 0.6 and n:      # homogeneous list
@@ -249,6 +270,9 @@ def rand_target(rng):
         return scalar()
 
     def clone_shape(proto, d):
+        if proto['cls'] in ('eqall', 'eqraise', 'gen'):
+            cells.append(dict(proto, items=list(proto['items'])))
+            return {'k': 'ref', 'a': len(cells)}
         if proto['cls'] in ('dict', 'odict', 'obj'):
             items = [[k, value(d - 1) if v['k'] == 'ref' else scalar_like(v)] for k, v in proto['items']]
             if rng.random() < 0.3 and items:
@@ -261,22 +285,27 @@ def rand_target(rng):
         return {'k': 'ref', 'a': len(cells)}
 
     root = container(rng.randint(2, 4)) if rng.random() < 0.93 else scalar()
+    for c in cells:           # a one-shot iterator cannot be swapped into an immutable cell afterwards
+        if c['cls'] in ('tuple', 'frozenset', 'set'):
+            c['items'] = [VI(0) if v['k'] == 'ref' and cells[v['a'] - 1]['cls'] == 'gen' else v for v in c['items']]
     if not cells:
         cells.append({'cls': 'list', 'items': []})
     return cells, root
 
 
 # ---- random specs -----------------------------------------------------------------------------------
-ODD_LEAVES = [F('ret_SKIP'), F('ret_STOP'), F('raise_KeyError'), F('raise_ValueError'), F('raise_GlomError'),
+FALSY_VALS = [VI(0), VS(''), {'k': 'bool', 'b': False}, NONE]
+ODD_LEAVES = [V(VI(0)), V(VS('')), V({'k': 'bool', 'b': False}), F('ret_SKIP'), F('ret_STOP'), F('raise_KeyError'), F('raise_ValueError'), F('raise_GlomError'),
               V(SKIP), V(STOP), V(NONE), V(VI(1)), C(VI(3)), P('x'), F('ident'), F('inc'), F('size'),
               TT(('[', VS('x'))), TT(('.', VS('a'))), TT(), F('is_none'), F('echo'), F('ret_None'), F('ret_None')]
 
 
 class Gen:
-    def __init__(self, rng, cells, run, mk_fns):
+    def __init__(self, rng, cells, run, mk_fns, make_heap=None):
         self.rng = rng
         self.cells = cells
-        self.heap = codec.Heap(cells, codec.PLAIN, fns=mk_fns([]))     # guide objects (log discarded)
+        # guide objects (log discarded)
+        self.heap = make_heap(cells, mk_fns([])) if make_heap else codec.Heap(cells, codec.PLAIN, fns=mk_fns([]))
         self.run = run
         self.in_ref = 0
         self.in_fill = 0
@@ -316,7 +345,7 @@ class Gen:
         o = {'dflt': [], 'skipexc': [], 'scope': self.top_scope}
         r = rng.random()
         if r < 0.12:
-            o['dflt'] = [rng.choice([VI(7), NONE, SKIP, VS('s')])]
+            o['dflt'] = [rng.choice([VI(7), NONE, SKIP, VS('s'), VI(0), VS(''), {'k': 'bool', 'b': False}])]
         if 0.08 < r < 0.2:
             o['skipexc'] = [rng.choice([['KeyError'], ['ValueError', 'TypeError'], ['Exception'], ['GlomError'],
                                         ['LookupError'], []])]
@@ -348,6 +377,9 @@ class Gen:
         if isinstance(tgt, (list, tuple)):
             r = rng.random()
             n = len(tgt)
+            if r < 0.12:      # boundary indices: first, last, exactly the length, one beyond either end
+                i = rng.choice([0, -1, n, n - 1, -n, -n - 1, 1])
+                return P(str(i)) if rng.random() < 0.5 and -9 <= i <= 9 else TT(('[', VI(i)))
             if n and r < 0.35:
                 return P(str(rng.randint(-n, n - 1)))
             if n and r < 0.6:
@@ -415,7 +447,7 @@ class Gen:
             kinds += ['inspect']
         if not chain_step:
             kinds += ['specs']
-        if isinstance(tgt, (list, tuple, dict)):
+        if isinstance(tgt, (list, tuple, dict)) or hasattr(tgt, 'pulled'):
             kinds += ['list', 'list', 'list']
         if not chain_step:
             kinds += ['fill', 'auto']
@@ -474,8 +506,9 @@ class Gen:
             rng.shuffle(pairs)
             return D(pairs)
         pairs = []
+        falsy_keys = rng.random() < 0.1
         for k in rng.sample(['p', 'q', 'r'], rng.randint(1, 3)):
-            key = k
+            key = {'lit': True, 'v': {'p': VI(0), 'q': VS(''), 'r': NONE}[k]} if falsy_keys else k
             if rng.random() < 0.2:
                 cand = [kk for kk, vv in tgt.items() if isinstance(kk, str) and isinstance(vv, (str, int, type(None)))] \
                     if isinstance(tgt, dict) else []
@@ -484,15 +517,15 @@ class Gen:
                     key = KS(rng.choice([TT(('[', VS(kk))), W('spec', P(kk))]))
                 else:
                     key = KS(rng.choice([TT(('[', VS('x'))), W('spec', F('ret_SKIP')), W('spec', F('size')), TT()]))
-            if isinstance(key, dict) and key['s'] == TT():
-                if any(isinstance(k0, dict) and k0['s'] == TT() for k0, _ in pairs):
+            if isinstance(key, dict) and not key.get('lit') and key['s'] == TT():
+                if any(isinstance(k0, dict) and not k0.get('lit') and k0['s'] == TT() for k0, _ in pairs):
                     key = k                      # bare T is one object: it can be a key only once
             pairs.append((key, self.gen(tgt, d - 1)))
         # (an OrderedDict inside Fill is returned as the spec object itself: outside the fragment)
         return D(pairs, ordered=rng.random() < 0.3 and not self.in_fill)
 
     def g_list(self, tgt, d):
-        items = list(tgt)
+        items = list(getattr(tgt, '_items', tgt))          # (a one-shot iterator of the guide heap is not consumed)
         first = items[0] if items else None
         return N('list', [self.gen(first, d - 1)])
 
@@ -529,6 +562,8 @@ class Gen:
             self.names.pop()
         if rng.random() < 0.08:
             steps = []
+        if len(steps) == 2 and rng.random() < 0.25:
+            return N('ntuple', steps)
         return N('pipe' if rng.random() < 0.4 and steps else 'tuple', steps)
 
     def g_coalesce(self, tgt, d):
@@ -543,11 +578,15 @@ class Gen:
                 kids.append(rng.choice([V(NONE), F('ret_None')]))
             else:
                 kids.append(self.gen(tgt, d - 1))
-        dflt = rng.choice([None, None, {'kind': 'arg', 'a': C(NONE)}, {'kind': 'arg', 'a': C(SKIP)},
+        dflt = rng.choice([None, None, {'kind': 'arg', 'a': C(rng.choice(FALSY_VALS))}, {'kind': 'arg', 'a': N('list', [])},
+                           {'kind': 'arg', 'a': D([])},
+                           {'kind': 'arg', 'a': C(NONE)}, {'kind': 'arg', 'a': C(SKIP)},
                            {'kind': 'arg', 'a': C(STOP)}, {'kind': 'arg', 'a': self.arg(tgt, 2)},
                            {'kind': 'factory', 'name': rng.choice(['mk0', 'echo', 'raise_KeyError'])}])
         skip = rng.choice([None, None, {'kind': 'val', 'v': rng.choice([NONE, VI(0), VI(1), {'k': 'bool', 'b': True}, VS('')])},
-                           {'kind': 'tuple', 'vs': rng.choice([[NONE, VI(0)], [VS(''), NONE], [], [VI(1)]])},
+                           {'kind': 'val', 'v': rng.choice([{'k': 'elist'}, {'k': 'edict'}, {'k': 'bool', 'b': False}])},
+                           {'kind': 'tuple', 'vs': rng.choice([[NONE, VI(0)], [VS(''), NONE], [], [VI(1)],
+                                                               [{'k': 'elist'}, {'k': 'edict'}, NONE], [VS(''), {'k': 'elist'}]])},
                            {'kind': 'pred', 'name': rng.choice(['is_none', 'is_int', 'raise_GlomError', 'raise_ValueError'])}])
         ex = rng.choice([['GlomError']] * 4 + [['KeyError'], ['ValueError', 'TypeError'], ['Exception'],
                                                ['PathAccessError'], ['LookupError'], []])
